@@ -423,6 +423,17 @@ fn used_type_params<'ty, 'out>(
         Type::Tuple(TypeTuple { elems, .. }) => elems
             .iter()
             .for_each(|elem| used_type_params(out, elem, is_type_param)),
+        Type::Path(TypePath {
+            qself: Some(qself), ..
+        }) => {
+            // `<T as Trait>::Assoc` is known no better than `T`: like `T::Assoc`, it needs a bound of
+            // its own
+            let mut of_qself = HashSet::new();
+            used_type_params(&mut of_qself, &qself.ty, is_type_param);
+            if !of_qself.is_empty() {
+                out.insert(ty);
+            }
+        }
         Type::Path(TypePath { qself: None, path }) => {
             let first = path.segments.first().unwrap();
             if is_type_param(&first.ident) {
